@@ -29,7 +29,7 @@ def run_one(sid, replay):
         shutil.rmtree(tmp, ignore_errors=True)
 if __name__ == "__main__":
     replay = "--replay" in sys.argv
-    ids = [a for a in sys.argv[1:] if not a.startswith("--")] or sorted(os.listdir(os.path.join(VERIF, "seeded")))
+    ids = [a for a in sys.argv[1:] if not a.startswith("--")] or sorted(x for x in os.listdir(os.path.join(VERIF, "seeded")) if x != "obsolete")
     from concurrent.futures import ThreadPoolExecutor
     with ThreadPoolExecutor(max_workers=3) as ex:
         res = list(ex.map(lambda s: run_one(s, replay), ids))
